@@ -938,12 +938,20 @@ def register(reg):
     @reg.contract
     class SendConnectionInit(Contract):
         key = H2 + "._send_connection_init"
-        props = ("C13", "C12", "C03")
+        props = ("C13", "C12", "C03", "C15")
         modifies = ("NS.written", "X.ver", "X.queue_ver", "X.lmax", "H2._write_exception", "H2._connection_error")
-        raises = NET_WRITE_RAISES + [H2_PROTOCOL_ERROR, "Cancelled"]
-        raises_props = ("C15",)
-        # assumed: on a fresh H2Connection the preface / settings / window calls do not raise
-        call_raises = NET_WRITE_RAISES + ["Cancelled"]
+        # it was an unchecked "fresh connection: the preface calls do not raise" assumption before; a second request after a
+        # failed preface write finds the state machine CLOSED (design_probes/p29).  Now proved: no h2 error leaves this
+        # function (the `raises` clause has no h2 class), and it refuses a closed connection before touching anything
+        raises = NET_WRITE_RAISES + [CNA, "Cancelled"]
+        raises_props = ("C15", "C14")
+        call_raises = NET_WRITE_RAISES + [CNA, "Cancelled"]
+
+        def exc_checks(self, c, exc):
+            if exc.cls == CNA:
+                return [("refuses_only_a_closed_connection_and_before_anything_is_sent", ("C14", "C15"),
+                         z3.And(F(c, c.new(c.self, "H2._h2_state"), "X.closed", old=True), z3.BoolVal(not c.events("net.write") and not c.events("h2.initiate_connection"))))]
+            return []
 
         def ensures(self, c):
             x = c.new(c.self, "H2._h2_state")
